@@ -467,7 +467,7 @@ theorem Thr.valid_iff (t : Thr) : t.valid = true ↔ t.Ok := by
 
 theorem thrDefault_valid : thrDefault.valid = true := by decide
 
-theorem mem_padTo' {α} {n : Nat} {d x : α} {xs : List α} (h : x ∈ padTo n d xs) : x = d ∨ x ∈ xs := by
+theorem mem_padTo_c09 {α} {n : Nat} {d x : α} {xs : List α} (h : x ∈ padTo n d xs) : x = d ∨ x ∈ xs := by
   unfold padTo at h
   rcases List.mem_append.mp (List.mem_of_mem_take h) with h | h
   · exact Or.inr h
@@ -489,7 +489,7 @@ theorem C09_host_built_thr_valid (thr : ThrCfg) (c : NodesCfg) (h : HostCfg) (o 
     simp only [HostObs.thrValid, HostCfg.obs, Bool.and_eq_true, List.all_eq_true]
     refine ⟨⟨?_, ?_⟩, ?_⟩
     · intro a ha
-      rcases mem_padTo' ha with rfl | ha
+      rcases mem_padTo_c09 ha with rfl | ha
       · exact thrDefault_valid
       · rcases hva with hva | hva
         · cases hl : h.apps with
@@ -498,7 +498,7 @@ theorem C09_host_built_thr_valid (thr : ThrCfg) (c : NodesCfg) (h : HostCfg) (o 
         · obtain ⟨_, _, rfl⟩ := List.mem_map.mp ha
           exact hva
     · intro f hf x hx
-      rcases mem_padTo' hf with rfl | hf
+      rcases mem_padTo_c09 hf with rfl | hf
       · simp only [padFolder] at hx
         rw [List.eq_of_mem_replicate hx]
         exact thrDefault_valid
@@ -508,12 +508,12 @@ theorem C09_host_built_thr_valid (thr : ThrCfg) (c : NodesCfg) (h : HostCfg) (o 
         · simp only [Bool.and_eq_true, List.isEmpty_iff, beq_iff_eq] at hvf
           rw [hvf.1, hvf.2, List.map_nil, padTo_zero_nil] at hx
           cases hx
-        · rcases mem_padTo' hx with rfl | hx
+        · rcases mem_padTo_c09 hx with rfl | hx
           · exact hvf
           · obtain ⟨_, _, rfl⟩ := List.mem_map.mp hx
             exact hvf
     · intro n hn
-      rcases mem_padTo' hn with rfl | hn
+      rcases mem_padTo_c09 hn with rfl | hn
       · exact thrDefault_valid
       · rcases hvn with hvn | hvn
         · simp only [Bool.and_eq_true, List.isEmpty_iff, beq_iff_eq] at hvn
